@@ -403,3 +403,48 @@ def move_class(fen, mv):
     if pc in "Kk" and abs(f[0] - t[0]) == 2: return "castle"
     if pc in "Pp" and f[0] != t[0] and tg is None: return "ep"
     return "capture" if tg else "quiet"
+
+
+# ---- "forced losing recapture" baits (C04): the side to move has a check after which the only legal replies capture the
+#      checking piece with a more valuable piece while the checker is protected (Rd8+ Qxd8 Bxd8; Nf7+ Qxf7 Bxf7).  No mate —
+#      a quiescence search that prunes losing captures while in check would announce one.  Callers filter by shape.
+def _sq(name): return "abcdefgh".index(name[0]) + 8 * (int(name[1]) - 1)
+
+
+def recapture_baits(rng, n):
+    out = []
+    templates = [
+        # (pieces, side to move white) in white-attacks orientation
+        ({"g8": "k", "f7": "p", "g7": "p", "h7": "p", "c7": "q", "d1": "R", "g5": "B", "g1": "K", "f2": "P", "g2": "P", "h2": "P"}, ["d8", "e7", "f6", "d2", "d3", "d4", "d5", "d6", "d7", "e8", "f8", "h8"]),
+        ({"h8": "k", "g8": "r", "g7": "p", "h7": "p", "e7": "q", "g5": "N", "c4": "B", "g1": "K", "g2": "P", "h2": "P"}, ["f7", "d5", "e6", "f8", "f6"]),
+        ({"g8": "k", "f7": "p", "g7": "p", "h7": "p", "b6": "q", "e1": "R", "h4": "B", "h1": "K", "g2": "P", "h2": "P"}, ["e8", "f8", "e2", "e3", "e4", "e5", "e6", "e7", "d8", "c7", "g5", "f6", "h8"]),
+        ({"e8": "k", "d8": "r", "f8": "b", "d7": "p", "f7": "p", "e7": "q", "b5": "N", "f4": "B", "g1": "K"}, ["d6", "c7", "e5"]),
+    ]
+    for _ in range(n):
+        pcs, keep_empty = rng.choice(templates)
+        board = [None] * 64
+        for k, v in pcs.items(): board[_sq(k)] = v
+        crit = {_sq(k) for k in keep_empty} | {_sq(k) for k in pcs}
+        # random extra material away from the critical squares
+        for _e in range(rng.randrange(0, 7)):
+            t = rng.choice("PPPNBRpppnbr")
+            sq = rng.randrange(8, 56) if t in "Pp" else rng.randrange(64)
+            if sq not in crit and board[sq] is None: board[sq] = t
+        white = True
+        if rng.random() < 0.5:     # mirror files
+            board = [board[(i // 8) * 8 + 7 - i % 8] for i in range(64)]
+        if rng.random() < 0.5:     # colour flip
+            board = [(lambda p: None if p is None else p.swapcase())(board[(7 - i // 8) * 8 + i % 8]) for i in range(64)]
+            white = False
+        out.append(board_to_fen(board, white, "-", "-", 0, 30))
+    return out
+
+
+def fen_board(fen):
+    b = [None] * 64
+    y, x = 7, 0
+    for c in fen.split()[0]:
+        if c == "/": y -= 1; x = 0
+        elif c.isdigit(): x += int(c)
+        else: b[y * 8 + x] = c; x += 1
+    return b
